@@ -38,7 +38,8 @@ GhostSetVis(g, c, e, v) == [g EXCEPT !.lastSet[c] = With(@, e, v)]
 ----------------------------------------------------------------------------
 \* a pre-spawned entity adopted through a mapping whose server entity has not been replicated to the
 \* client yet (no confirmed tick) is not part of the replicated view
-Pending(ent) == ent.pre # None /\ ent.hist < 0
+\* and neither is a placeholder reserved for an entity that was only referenced (no marker, no tick)
+Pending(ent) == ent.hist < 0 /\ (ent.pre # None \/ ~ent.marker)
 Held(st, c) == {e \in DOMAIN st.cli[c].ents : st.cli[c].ents[e].alive /\ ~Pending(st.cli[c].ents[e])}
 View(st, c) == [e \in Held(st, c) |-> st.cli[c].ents[e].comps]
 
